@@ -233,7 +233,7 @@ type vfC14Machine struct {
 	ntWild    bool // a probe topic was matched by a live wildcard filter
 	abandoned bool // a listed known finding was hit: the rest of this case is not evaluated
 	// taint: (client, filter) entries of the trie that a *listed known finding* may have left out of
-	// step with the model in this history (one such list in 256 is let through on purpose); a later
+	// step with the model in this history (about one such list in 100 is let through on purpose); a later
 	// disagreement about that client on a topic matched by that filter carries the known key.
 	taint map[string]string
 }
@@ -594,9 +594,9 @@ func (m *vfC14Machine) subscribe(rt *rapid.T) {
 			empty = true
 		}
 	}
-	if malformedAt > 0 && m.vf.HasKnown(vfC14KeySubPartial) && rapid.IntRange(0, 255).Draw(rt, "letKnownThrough") != 0 {
+	if malformedAt > 0 && m.vf.HasKnown(vfC14KeySubPartial) && rapid.IntRange(0, 99).Draw(rt, "letKnownThrough") != 57 {
 		// known finding: steer away by construction (malformed filters first, nothing precedes them);
-		// one list in 256 goes through unchanged so that the run still reports whether the defect is there
+		// about one list in 100 goes through unchanged so that the run still reports whether the defect is there
 		m.vf.Exclude()
 		var bad, good []int
 		for i, f := range filters {
@@ -690,8 +690,8 @@ func (m *vfC14Machine) unsubscribe(rt *rapid.T) {
 			goodAfterBad = true
 		}
 	}
-	if goodAfterBad && m.vf.HasKnown(vfC14KeyUnsubPartial) && rapid.IntRange(0, 255).Draw(rt, "letKnownThrough") != 0 {
-		// known finding: steer away by construction (malformed filters last); one list in 256 goes through
+	if goodAfterBad && m.vf.HasKnown(vfC14KeyUnsubPartial) && rapid.IntRange(0, 99).Draw(rt, "letKnownThrough") != 57 {
+		// known finding: steer away by construction (malformed filters last); about one list in 100 goes through
 		m.vf.Exclude()
 		var bad, good []string
 		for _, f := range filters {
